@@ -26,7 +26,7 @@ with pr_cat (c: cat) : list tt :=
   end
 with pr_cvt (v: cvt) : list tt :=
   match v with
-  | CValue n => [TLit n]
+  | CValue n => [TLit (LNat n)]
   | CNamedC t => pr t ++ match t with Ty _ _ _ (Some a) => TId "as" :: pr a | _ => [] end
   end.
 
